@@ -140,11 +140,22 @@ def _worker(env: str, alg: str, works: str, pc: str):
     return w
 
 
+WORKER_DEADLINE_S = 120     # one request never takes more than a fraction of a second; a worker that is silent this long is stuck
+DRIVER_PREFLIGHT_S = 120
+
+
 def _ask(key, line: str) -> str:
+    """one request, one answer line, with a deadline: a stuck worker is killed and reported as an infrastructure error"""
+    import select
     w = _worker(*key)
     try:
         w.stdin.write(line + "\n")
         w.stdin.flush()
+        ready, _, _ = select.select([w.stdout], [], [], WORKER_DEADLINE_S)
+        if not ready:
+            w.kill()
+            _workers.pop(key, None)
+            raise Infra("C19 worker %r did not answer within %d s: %s" % (key, WORKER_DEADLINE_S, line[:80]))
         r = w.stdout.readline()
     except (BrokenPipeError, OSError) as e:
         raise Infra("C19 worker %r died: %s" % (key, e))
@@ -520,18 +531,32 @@ def source_fingerprint() -> dict:
     return res
 
 
+def driver_preflight():
+    """the model driver must answer a handful of cheap ops promptly before the whole case list is handed to it
+    (lib.run_driver allows an hour): a model that loops is an infrastructure error, and the check ends"""
+    from lib import DRV
+    ops = ["c19_murmur3 00010203040506 1", "c19_rmd_py 00", "c19_bloom 8 3 0 i:00", "c19_history python na:0:00,r:0,m:0:1"]
+    try:
+        p = subprocess.run([str(DRV)], input=("\n".join(ops) + "\n").encode(), capture_output=True, timeout=DRIVER_PREFLIGHT_S)
+    except subprocess.TimeoutExpired:
+        raise Infra("the model driver did not answer %d trivial C19 ops within %d s" % (len(ops), DRIVER_PREFLIGHT_S))
+    if p.returncode != 0 or len(p.stdout.decode().strip().split("\n")) != len(ops):
+        raise Infra("the model driver failed the C19 preflight: rc=%d %s" % (p.returncode, p.stderr.decode()[-300:]))
+
+
 def gen(ctx, emit):
     rng = ctx.rng
+    driver_preflight()
     # DESIGN §2.3: a changed source fingerprint is not a violation; it deepens the differential look of this run
     import json
     fp = source_fingerprint()
     known_fp = json.loads(FINGERPRINT_FILE.read_text()) if FINGERPRINT_FILE.exists() else {}
     changed = sorted(a for a in ANCHORS if known_fp.get(a) != fp[a])
     ctx.extra_cov["source_fingerprint"] = fp
-    if changed and not ctx.thorough:
-        ctx.note("source fingerprint changed for %s: quick budgets raised x12 for this run" % ", ".join(changed))
+    if changed and not ctx.thorough and os.environ.get("VERIF_ESCALATE") != "1":   # (lib.Ctx.n escalates by itself then)
+        ctx.note("source fingerprint changed for %s: quick budgets raised x6 for this run" % ", ".join(changed))
         _n = ctx.n
-        ctx.n = lambda q, t: _n(q * 12, t)
+        ctx.n = lambda q, t: _n(q * 6, t)
     facts = sandbox_facts()
     ctx.note("sandbox: hashlib lists ripemd160=%s, hashlib ripemd160 works=%s; default configuration selects %s, "
              "PYCOIN_USE_PYTHON_RIPEMD160=1 selects %s" % (facts["listed"], facts["works"], facts["native_choice"], facts["python_choice"]))
